@@ -23,7 +23,7 @@ RULE = (
     "Invocation = request set (1..4 of: current / deprecated SPDX identifiers, 'ID+', unknown names, LicenseRef- with / without --source file | directory | "
     "directory lacking the file) | --all over a project with 0..4 missing licences (some of them unknown identifiers) | -o PATH, x per-identifier network plan {200 + body, 404, 500, "
     "connection reset, body shorter than Content-Length} x LICENSES/ pre-state {absent, empty, target already present with sentinel bytes, target present as a dangling symbolic link pointing out of the project} x cwd {root, "
-    "sub-directory of a Git repository, inside LICENSES/ with and without Git, outside with --root}; sequences of 1..3 invocations.  Oracle: every "
+    "sub-directory of a Git repository, inside LICENSES/ with and without Git, outside with --root, outside with --root <project>/LICENSES}; arguments with a path separator in front of a real identifier; sequences of 1..3 invocations.  Oracle: every "
     "pre-existing file byte-identical; new files only LICENSES/<id without '+'>.txt under the root (or the -o path) with exactly the served body / the "
     "--source bytes / empty for a bare LicenseRef-; a failed identifier leaves no file and makes the exit status non-zero; all succeeded => exit 0; no "
     "request ever reaches the server for a LicenseRef-; after an exit-0 `download --all`, lint reports no missing licence.  Non-trivial = >= 1 failing "
@@ -46,13 +46,16 @@ def invocation(draw):
     if mode in ("ids", "output"):
         n = 1 if mode == "output" else draw(st.integers(1, 4))
         for _ in range(n):
-            kind = draw(st.sampled_from(["valid", "valid", "valid", "plus", "unknown", "licenseref"]))
+            kind = draw(st.sampled_from(["valid", "valid", "valid", "plus", "unknown", "licenseref", "pathlike"]))
             if kind == "valid":
                 ids.append(draw(st.sampled_from(VALID)))
             elif kind == "plus":
                 ids.append(draw(st.sampled_from(VALID)) + "+")
             elif kind == "unknown":
                 ids.append(draw(st.sampled_from(UNKNOWN)))
+            elif kind == "pathlike":
+                # an argument with a path separator whose last component is a real identifier (the server would serve it)
+                ids.append(draw(st.sampled_from(["../text/", "text/", "sub/../", "../", "a/b/"])) + draw(st.sampled_from(VALID)))
             elif draw(st.integers(0, 5)) == 0:
                 # not an identifier at all, although its tail looks like a LicenseRef-
                 ids.append(draw(st.sampled_from(["../LicenseRef-up", "src/LicenseRef-sub", "../../LicenseRef-out"])))
@@ -65,7 +68,7 @@ def invocation(draw):
         if plan[u] == "ok" or plan[u] == "short":
             plan[u] = "404"
     return {"mode": mode, "ids": ids, "plan": plan, "source": draw(st.sampled_from([None, None, "file", "dir", "dir-missing"])),
-            "cwd": draw(st.sampled_from(["root", "root", "sub", "licenses", "outside"]))}
+            "cwd": draw(st.sampled_from(["root", "root", "sub", "licenses", "outside", "outside-licroot"]))}
 
 
 @st.composite
@@ -109,7 +112,9 @@ def check(ctx, c):
         nontrivial = False
         for step in c["steps"]:
             before = AN.snapshot(base)
-            cwd = {"root": root, "sub": root / "src", "licenses": root / "LICENSES", "outside": base}[step["cwd"]]
+            if step["cwd"] == "outside-licroot" and (step["mode"] == "all" or not (root / "LICENSES").is_dir()):
+                step = dict(step, cwd="outside")
+            cwd = {"root": root, "sub": root / "src", "licenses": root / "LICENSES", "outside": base, "outside-licroot": base}[step["cwd"]]
             if not cwd.exists():
                 cwd = root
                 step = dict(step, cwd="root")
@@ -123,6 +128,11 @@ def check(ctx, c):
             lic_dir = eff_root / "LICENSES"
             if step["cwd"] == "licenses" and not c["git"]:
                 lic_dir = cwd  # inside a directory called LICENSES, files go right there
+            if step["cwd"] == "outside-licroot":
+                # the directory called LICENSES is given as the root from elsewhere: without a VCS it is the licences directory itself,
+                # inside a Git work tree it is an ordinary root with a LICENSES/ of its own
+                pre = ["--root", str(root / "LICENSES")]
+                lic_dir = root / "LICENSES" if not c["git"] else root / "LICENSES" / "LICENSES"
             args = [*pre, "download"]
             ids = list(step["ids"])
             out_path = None
